@@ -137,7 +137,9 @@ type Frame struct {
 	// Kind: "untagged" (exported, no tag), "unexported" (carries a wire tag but unexported),
 	// "foreign" (exported, json tag), "named" (inside a named, i.e. non-anonymous struct field),
 	// "taggedEmbed" (inside an anonymous embedded struct that itself carries a tag),
-	// "ptrEmbed" (inside an anonymous embedded *struct).
+	// "ptrEmbed" (inside an anonymous embedded *struct that is nil), "ptrEmbedSet" (the same,
+	// but the pointer already points at an object when the component is registered),
+	// "lookalike" (foreign tags that merely contain a recognised tag name).
 	Kind   string `json:"kind"`
 	GoType string `json:"goType"` // "int", "string", or "*<Type>" / "I<k>"
 	Target string `json:"target,omitempty"`
@@ -202,6 +204,8 @@ type Proc struct {
 	Rules      []*Rule `json:"rules,omitempty"`
 	// Props: PostProcessAfterInstantiation returns true (so PostProcessProperties is called).
 	Props bool `json:"props,omitempty"`
+	// Lazy: the processor itself is marked LazyInit (like the container's own processors).
+	Lazy bool `json:"lazy,omitempty"`
 }
 
 // Callback names used in rules, events and fault sites.
